@@ -44,6 +44,9 @@ TEXT = {
  "C05": ("fault_enumeration", "file-fault simulator", "5.C05",
          "The text the parser consumes is treated as storage under fault: for every sampled valid rendered document ALL (line position x fault kind) combinations are enumerated - torn write after/inside each line, lost line, duplicated line, swapped neighbours - plus every catalogued grammar violation at every position where it is one, delivered through parse_file on the scratch disk, parse_feature, parse_rule, parse_scenario, parse_steps and parse_tags, plus multi-language line soups. The call must return or raise ParserError with a line inside the text (the injected line for catalogued faults); anything else is a violation.",
          "the parser is a pure function: there is no schedule dimension, the claim rests on the property being stated over injected faults on the consumed text; documents use English keywords (other languages in soups only)"),
+ "C11": ("exploration", "registry history machine + run-sim", "5.C11",
+         "A real StepRegistry is driven through seeded registration histories (three matcher kinds, matcher switches inside and across generated step modules on disk, custom type converters with injected faults, deliberate overlaps, module re-loads) and probed with lookups built from each pattern (exact instance, wrong case, prefix/suffix, changed literal); a reference registry with the model's own anchored regexes predicts the chosen definition, every Argument (value, name, span, original) and where AmbiguousStep is required. Run-sim worlds add the end-to-end part: the shim records which definition the real Step.run dispatched with which positional/keyword arguments.",
+         "cucumber-expression matcher and re0 are not generated; an identical pattern registered twice may or may not be rejected (the statement is silent)"),
 }
 
 def main():
